@@ -4,7 +4,7 @@ import json, os, re, subprocess, sys, time, hashlib, shutil
 VERIF = os.path.dirname(os.path.dirname(os.path.abspath(__file__)))
 REPO = os.environ.get("VERIF_REPO", "/repo")
 LEAN = os.path.join(VERIF, "lean")
-HARNESS = os.path.join(VERIF, "harness")
+HARNESS = os.environ.get("VERIF_HARNESS_DIR", os.path.join(VERIF, "harness"))   # (override: development only)
 TARGET = os.path.join(VERIF, "target")
 WORK = os.path.join(VERIF, "work")
 DRIVER = os.path.join(LEAN, ".lake", "build", "bin", "driver")
@@ -232,6 +232,7 @@ def monitor_case(ops, obs, which):
     bufs = {}      # byte-buffer handle -> [off, cap, len]
     fstate = {"closed": False, "before_close": None, "mode": None, "fh_open": None, "badfile": False, "last_fh": None, "kind_ok_ro": True}
     dcount = 0
+    dhandles = set()   # live handles of the drop-counting type
     lastput = None # (handle, op tokens, len before)
     def V(p, sig, msg, i):
         viol.append((p, sig, msg, i))
@@ -253,7 +254,12 @@ def monitor_case(ops, obs, which):
             fstate["closed"] = True
             if fstate["mode"] in (None, "mut"):   # only a shared writable session leaves its state in the file
                 fstate["before_close"] = prev
-            if fstate["mode"] in ("ro", "copy_ro", "copy") and fstate["fh_open"] is not None and o.get("fh") != fstate["fh_open"]:
+            # a file marked remove-on-drop disappears exactly when the last arena value goes (here: at `close`), in every mode
+            if fstate.get("remove") and o.get("fh") != "none":
+                V("C13", "remove-on-drop-ignored", f"close after remove_on_drop(true) in a {fstate['mode'] or 'creating'} session: the file is still there", i)
+            if not fstate.get("remove") and o.get("fh") == "none":
+                V("C13", "file-removed-unasked", "close removed the file although it was not marked remove-on-drop", i)
+            if fstate["mode"] in ("ro", "copy_ro", "copy") and fstate["fh_open"] is not None and o.get("fh") != fstate["fh_open"] and not fstate.get("remove"):
                 V("C09" if fstate["mode"] != "copy" else "C05", "session-changes-file",
                   f"file hash changed during a {fstate['mode']} session: {fstate['fh_open']} -> {o.get('fh')}", i)
             fstate["last_fh"] = o.get("fh")
@@ -269,6 +275,7 @@ def monitor_case(ops, obs, which):
         if op in ("delete_file", "random_file") and r == "ok":
             fstate["before_close"] = None; dead.clear()
         if op in ("mutate_file", "truncate_file", "random_file", "delete_file") and r == "ok":
+            fstate["tampered"] = True   # the file was changed behind the arena's back: no claim about what a later open finds in it
             reserved = int(cfg.get("reserved", "0"))
             if op == "mutate_file" and o.get("fh") != fstate["last_fh"]:
                 I = int(t[1])
@@ -281,6 +288,9 @@ def monitor_case(ops, obs, which):
                 fstate["badfile"] = True; fstate["kind_ok_ro"] = False
             if op in ("random_file", "delete_file"):
                 fstate["badfile"] = None   # unknown validity
+                # ... except that a file shorter than the arena prefix can never be valid
+                if op == "random_file" and o.get("flen", "none").isdigit() and int(o["flen"]) < doff:
+                    fstate["badfile"] = True; fstate["kind_ok_ro"] = False
             fstate["last_fh"] = o.get("fh")
         if op == "reopen":
             kvs = dict(x.split("=", 1) for x in t[2:] if "=" in x)
@@ -288,6 +298,11 @@ def monitor_case(ops, obs, which):
             ro_mode = mode in ("ro", "copy_ro")
             if o.get("pk") == "0" and (r.startswith("io:") or ro_mode):
                 V("C09", "open-alters-file", f"{ops[i].strip()} -> {r}: bytes that were in the file changed", i)
+            if r.startswith("io:") and fstate["badfile"] is False and fstate["before_close"] is not None \
+               and kvs.get("magic") == cfg.get("magic") and kvs.get("reserved") == cfg.get("reserved") \
+               and (ro_mode or kvs.get("freelist") == cfg.get("freelist")) \
+               and (kvs.get("cap") in ("same", "none") or (kvs.get("cap", "").isdigit() and int(kvs["cap"]) >= int(cfg.get("cap", "0")))):
+                V("C05", "own-file-refused", f"{ops[i].strip()} -> {r}: a file written and closed by this very history is refused with the identification it was created with", i)
             if r == "ok":
                 wrong_magic = kvs.get("magic") != cfg.get("magic")
                 wrong_fl = (not ro_mode) and kvs.get("freelist") != cfg.get("freelist")
@@ -305,7 +320,9 @@ def monitor_case(ops, obs, which):
                         V("C05", "identity-differs", f"after {ops[i].strip()}: doff/mv/fk = {o.get('doff')}/{o.get('mv')}/{o.get('fk')}", i)
                     if o.get("ro") != ("1" if ro_mode else "0"):
                         V("C09", "ro-flag", f"{ops[i].strip()}: read_only() = {o.get('ro')}", i)
-                fstate["closed"] = False; fstate["mode"] = mode; fstate["fh_open"] = o.get("fh")
+                fstate["closed"] = False; fstate["mode"] = mode; fstate["fh_open"] = o.get("fh"); fstate["magic"] = kvs.get("magic"); fstate["remove"] = False
+                if not ro_mode and kvs.get("freelist") in ("none", "opt", "pess"):
+                    kind = kvs["freelist"]   # the policy this arena value was configured with
                 fstate["dead_at_open"] = list(dead)
                 fstate["ro_state"] = (o.get("al"), o.get("di"), o.get("ms"), o.get("fl"), o.get("mem")) if ro_mode else None
             fstate["last_fh"] = o.get("fh", fstate["last_fh"])
@@ -319,6 +336,25 @@ def monitor_case(ops, obs, which):
         # ---- C16: remaining = capacity - allocated
         if rem != max(cp - al, 0):
             V("C16", "remaining", f"remaining {rem} != capacity {cp} - allocated {al}", i)
+        # ---- C16 / C17: the cursor never lies below data_offset (the reserved prefix and the header stay out of reach)
+        if al < doff:
+            V("C16", "cursor-below-data-offset", f"after {ops[i].strip()}: allocated() = {al} < data_offset() = {doff}", i)
+            V("C17", "cursor-below-data-offset", f"after {ops[i].strip()}: allocated() = {al} < data_offset() = {doff}", i)
+        # ---- C16: the descriptive accessors agree with the configuration on every arena value
+        if op == "info" and r == "ok" and o.get("val", "").count(",") == 12:
+            f_ = o["val"].split(",")
+            exp_unify = "1" if backend == "file" else cfg.get("unify", "0")
+            exp_flags = {"vec": ("0", "0", "1", "0", "0"), "anon": ("1", "0", "1", "1", "0"), "file": ("1", "1", "0", "0", "1")}.get(backend)
+            cur_magic = fstate.get("magic") or cfg.get("magic")
+            bad = []
+            if f_[0] != exp_unify: bad.append(f"unify()={f_[0]}")
+            if exp_flags and tuple(f_[2:7]) != exp_flags: bad.append(f"is_map/is_ondisk/is_inmemory/is_map_anon/is_map_file={f_[2:7]}")
+            if f_[8] != cur_magic: bad.append(f"magic_version()={f_[8]} (configured {cur_magic})")
+            if f_[9] != "0": bad.append(f"version()={f_[9]}")
+            if f_[11] != cfg.get("reserved"): bad.append(f"reserved_bytes()={f_[11]}")
+            if f_[12] != str(doff): bad.append(f"data_offset()={f_[12]} (expected {doff})")
+            if bad:
+                V("C16", "accessors", f"info on the current arena value: {'; '.join(bad)}", i)
         if is_alloc:
             h = int(t[1])
             if r == "ok":
@@ -338,9 +374,12 @@ def monitor_case(ops, obs, which):
                             V("C03", "offset-align", f"alloc_aligned<{A},{S}>({N}) offset {off}", i)
                         if cap < S + N:
                             V("C03", "capacity", f"alloc_aligned<{A},{S}>({N}) capacity {cap}", i)
+                        if o.get("am", "0") != "0":
+                            V("C03", "addr-align", f"alloc_aligned<{A},{S}>({N}): address misaligned by {o.get('am')} (within the alignment the arena guarantees)", i)
                 else:
                     if op.startswith("alloc_d"):
                         A, S = 8, 8
+                        dhandles.add(h)
                     else:
                         A, S = int(t[2]), int(t[3])
                     need = S
@@ -349,8 +388,8 @@ def monitor_case(ops, obs, which):
                             V("C03", "capacity", f"alloc<{A},{S}> capacity {cap}", i)
                         if off % A != 0:
                             V("C03", "offset-align", f"alloc<{A},{S}> offset {off}", i)
-                        if (A <= max(maxalign, 8) or backend != "vec") and o.get("am", "0") != "0":
-                            V("C03", "addr-align", f"alloc<{A},{S}> address misaligned", i)
+                        if o.get("am", "0") != "0":
+                            V("C03", "addr-align", f"alloc<{A},{S}>: address misaligned by {o.get('am')} (within the alignment the arena guarantees)", i)
                 if need == 0 or cap == 0 and bcap == 0:
                     if (off, cap, boff, bcap) != (0, 0, 0, 0) and need == 0:
                         V("C01", "zero-size", f"zero-size request occupies {(off, cap, boff, bcap)}", i)
@@ -438,8 +477,14 @@ def monitor_case(ops, obs, which):
                             V("C20", "release-rule", f"{ops[i].strip()} of [{boff_},+{bcap_}) with min segment {ms_}: (al,di,fl) {(pal,pdi,pfl)} -> {(al,di,fl)}, expected {exp}", i)
                         elif exp[2] is None and (al, di) != exp[:2]:
                             V("C20", "release-rule", f"{ops[i].strip()} of [{boff_},+{bcap_}): (al,di) {(pal,pdi)} -> {(al,di)}, expected {exp[:2]}", i)
-                if "dc" in o and op == "drop":
-                    pass
+            # ---- C13: a value that needs dropping is dropped exactly once, by the drop of its non-detached handle
+            if r == "ok" and "dc" in o:
+                if h in dhandles:
+                    dhandles.discard(h)
+                    if op == "drop": dcount += 1
+                if int(o["dc"]) != dcount:
+                    V("C13", "drop-count", f"{ops[i].strip()}: the drop counter reads {o['dc']}, expected {dcount} (values are dropped once, by the drop of their non-detached handle only)", i)
+                    dcount = int(o["dc"])
         elif op == "clone":
             clones += 1
         elif op == "drop_arena":
@@ -449,6 +494,11 @@ def monitor_case(ops, obs, which):
                 live.clear(); dead.clear(); rewound = False
                 if al != doff or di != 0 or fl:
                     V("C17", "clear", f"after clear: allocated {al} (data_offset {doff}) discarded {di} fl {fl}", i)
+                # ... and the bytes are those of a freshly created arena (same capacity, same minimum segment size, reserved
+                # slice never written, never reopened): the whole-memory hash equals the one right after construction
+                if not fstate.get("wres") and fstate["mode"] is None and cp == int(o0["cp"]) and o.get("ms") == o0.get("ms") \
+                   and "mem" in o and "mem" in o0 and o["mem"] != o0["mem"]:
+                    V("C17", "clear-not-pristine", f"after clear the memory image (hash {o['mem']}) differs from the freshly created arena's ({o0['mem']})", i)
         elif op == "rewind":
             live.clear(); dead.clear(); rewound = True
             # reference clamp
@@ -462,7 +512,7 @@ def monitor_case(ops, obs, which):
             if (di, o.get("fl"), o.get("ms")) != (pdi, prev.get("fl"), prev.get("ms")):
                 V("C17", "rewind-other", "rewind changed something besides the cursor", i)
         elif op == "inc_discarded":
-            if di != (pdi + int(t[1])) % U32:
+            if di != (pdi + int(t[1])) % U32 and not (fstate.get("ro_state") and not fstate["closed"]):
                 V("C20", "increase", f"increase_discarded({t[1]}): {pdi} -> {di}", i)
         elif op == "discard_freelist":
             if r == "ok" and None not in pfl:
@@ -540,6 +590,12 @@ def monitor_case(ops, obs, which):
                 V("C15", "varint-beyond-allocated", f"{ops[i].strip()} read at/above allocated={al}", i)
             if r == "OutOfBounds" and off_ < al:
                 V("C15", "spurious-oob", f"{ops[i].strip()} refused with allocated={al}", i)
+            # a complete canonical encoding that lies below allocated() must be returned as it is
+            rf_ = o.get("vref", "none")
+            if rf_ != "none" and ":" in rf_:
+                n_, v_ = rf_.split(":", 1)
+                if off_ + int(n_) <= al and (r != "ok" or o.get("n") != n_ or o.get("val") != v_):
+                    V("C15", "varint-wrong", f"{ops[i].strip()} -> {r} n={o.get('n')} val={o.get('val')}, but the bytes there are the canonical encoding of {v_} ({n_} bytes, below allocated={al})", i)
         if op == "slices" and r == "ok":
             if o.get("val") != f"{al},{al-doff},{cp},{cfg.get('reserved')}":
                 V("C15", "slice-lengths", f"slices {o.get('val')} with allocated={al} data_offset={doff} capacity={cp}", i)
@@ -549,9 +605,18 @@ def monitor_case(ops, obs, which):
                 V("C09", "ro-state-changes", f"{ops[i].strip()} changed a read-only arena", i)
             if (is_alloc and r == "ok" and int(o.get("cap", 0)) + int(o.get("bcap", 0)) > 0) or (op in ("discard_freelist", "clear") and r == "ok"):
                 V("C09", "ro-accepts-mutator", f"{ops[i].strip()} -> {r} on a read-only arena", i)
+            if op == "discard_freelist" and r != "ReadOnly":
+                V("C20", "ro-discard-freelist", f"discard_freelist -> {r} on a read-only arena (expected ReadOnly)", i)
         if op == "close":
             fstate["ro_state"] = None
+            # the backing memory / mapping is released exactly once when the last arena value goes (real Memory::unmount count)
+            if r == "ok" and "um" in o and o["um"] != "1":
+                V("C13", "unmount-count", f"close released the backing memory {o['um']} times (expected exactly once)", i)
+        if op == "wres": fstate["wres"] = True
+        if op == "remove_on_drop" and r == "ok": fstate["remove"] = (t[1] == "1")
         # ---- C18 truncate
+        if op == "truncate" and r == "ok" and fstate.get("ro_state") and not fstate["closed"]:
+            V("C18", "ro-truncate-accepted", f"{ops[i].strip()} -> ok on a read-only arena", i)
         if op == "truncate" and r == "ok":
             n_ = int(t[1])
             if cp != max(n_, pal) or (al, di, o.get("fl"), o.get("ms"), o.get("ma")) != (pal, pdi, prev.get("fl"), prev.get("ms"), prev.get("ma")):
@@ -562,10 +627,10 @@ def monitor_case(ops, obs, which):
         if op in ("drop", "detach", "dealloc") and "dc" in o:
             pass
         # ---- C20 monotone (below 2^32)
-        if op not in ("clear", "inc_discarded") and di < pdi and pdi + 0 < U32 - (1 << 20):
+        if op not in ("clear", "inc_discarded", "reopen") and di < pdi and pdi + 0 < U32 - (1 << 20):
             V("C20", "decrease", f"discarded decreased {pdi} -> {di} at {ops[i].strip()}", i)
         # ---- C10 list shape
-        if None not in fl and not rewound:
+        if None not in fl and not rewound and al <= cp and not fstate.get("tampered"):
             for k, s in enumerate(fl):
                 if s[0] % 8 != 0 or s[0] < doff or s[0] + 8 + s[1] > al:
                     V("C10", "seg-shape", f"segment {s} not aligned / outside [{doff},{al})", i)
@@ -588,7 +653,8 @@ def monitor_case(ops, obs, which):
                         V("C10", "seg-overlaps-live", f"segment {s} overlaps live [{o2},{o2+c2})", i)
             if kind == "none" and fl:
                 V("C10", "none-has-list", f"Freelist::None has segments {fl}", i)
-        elif None in fl:
+        elif None in fl and al <= cp and not fstate.get("tampered"):
+            # (an arena reopened with a capacity below its allocated() has nodes outside the mapping: no claim there)
             V("C10", "cycle", "free-list walk did not terminate", i)
         # ---- C13 refs
         if "rf" in o:
